@@ -92,55 +92,45 @@ def t_log(src):
     return new
 
 
-def t_rename(src):
+def t_rename(src, minlen=3):
+    """Rename every local of every outermost function (consistently inside its nested defs): stored names that are not
+    parameters of the function or of any def nested in it, not declared global/nonlocal, not bound by an except
+    handler or an import."""
     tree = ast.parse(src)
-    owner = {}
-    for fn in ast.walk(tree):
-        if isinstance(fn, (ast.FunctionDef, ast.AsyncFunctionDef)):
-            params = {a.arg for a in fn.args.args + fn.args.kwonlyargs + fn.args.posonlyargs} | ({fn.args.vararg.arg} if fn.args.vararg else set()) | ({fn.args.kwarg.arg} if fn.args.kwarg else set())
-            for n in ast.walk(fn):
-                if isinstance(n, ast.Name) and isinstance(n.ctx, ast.Store) and n.id not in params:
-                    owner.setdefault(n.id, set()).add(id(fn))
-    glob = {n.id for n in ast.walk(tree) if isinstance(n, ast.Global) for n in []}
-    nonlocal_ = set()
-    for n in ast.walk(tree):
-        if isinstance(n, (ast.Global, ast.Nonlocal)):
-            nonlocal_ |= set(n.names)
-    top = {t.id for s in tree.body for t in ast.walk(s) if isinstance(t, ast.Name) and isinstance(t.ctx, ast.Store) and s in tree.body and not isinstance(s, (ast.FunctionDef, ast.ClassDef))}
-    names = {k for k, v in owner.items() if len(v) == 1 and len(k) >= 6 and k not in nonlocal_ and k not in top}
-    # nested functions read enclosing locals: only rename when every Name occurrence of k lies inside the one owner
-    for fn in ast.walk(tree):
-        pass
 
-    class R(ast.NodeTransformer):
-        def visit_Name(self, n):
-            if n.id in names:
+    def outermost(node, inside=False):
+        for ch in ast.iter_child_nodes(node):
+            if isinstance(ch, (ast.FunctionDef, ast.AsyncFunctionDef)):
+                if not inside:
+                    yield ch
+                # nested defs are handled with their outermost function
+            elif isinstance(ch, ast.ClassDef):
+                yield from outermost(ch, inside)
+            else:
+                yield from outermost(ch, inside)
+
+    for fn in outermost(tree):
+        params = set()
+        excl = set()
+        for n in ast.walk(fn):
+            if isinstance(n, ast.arg):
+                params.add(n.arg)
+            elif isinstance(n, (ast.Global, ast.Nonlocal)):
+                excl |= set(n.names)
+            elif isinstance(n, ast.ExceptHandler) and n.name:
+                excl.add(n.name)
+            elif isinstance(n, (ast.Import, ast.ImportFrom)):
+                excl |= {(a.asname or a.name).split(".")[0] for a in n.names}
+            elif isinstance(n, (ast.FunctionDef, ast.AsyncFunctionDef, ast.ClassDef)) and n is not fn:
+                excl.add(n.name)
+            elif isinstance(n, ast.ClassDef):
+                excl |= {m.id for m in ast.walk(n) if isinstance(m, ast.Name)}
+        stored = {n.id for n in ast.walk(fn) if isinstance(n, ast.Name) and isinstance(n.ctx, (ast.Store, ast.Del))}
+        names = {k for k in stored if k not in params and k not in excl and len(k) >= minlen and not k.startswith("__")}
+        for n in ast.walk(fn):
+            if isinstance(n, ast.Name) and n.id in names:
                 n.id = n.id + "_x"
-            return n
-
-    # keyword arguments / attribute names are untouched (they are not Name nodes)
-    # names also used at class level or module level as reads of globals would be broken: exclude those that are read
-    # outside their owner
-    fn_of = {}
-    for fn in ast.walk(tree):
-        if isinstance(fn, (ast.FunctionDef, ast.AsyncFunctionDef)):
-            for n in ast.walk(fn):
-                if isinstance(n, ast.Name):
-                    fn_of.setdefault(n.id, set()).add(id(fn))
-    all_names = {}
-    for n in ast.walk(tree):
-        if isinstance(n, ast.Name):
-            all_names[n.id] = all_names.get(n.id, 0) + 1
-    inside = {}
-    for fn in ast.walk(tree):
-        if isinstance(fn, (ast.FunctionDef, ast.AsyncFunctionDef)):
-            for n in ast.walk(fn):
-                if isinstance(n, ast.Name) and id(fn) in owner.get(n.id, ()):
-                    inside[n.id] = inside.get(n.id, 0) + 1
-    # occurrences inside nested defs are counted once per enclosing def: compare with the owner's count only
-    names = {k for k in names if inside.get(k, 0) >= all_names.get(k, 0)}
-    new = ast.unparse(R().visit(tree)) + "\n"
-    return new
+    return ast.unparse(tree) + "\n"
 
 
 MODES = {"reformat": t_reformat, "shift": t_shift, "log": t_log, "rename": t_rename}
